@@ -135,6 +135,18 @@ enum Act {
     /// the caller drops its own waker (only outside a poll, once; no poll follows): the task lives on
     /// through the wakers handed out, as with a spawn-and-detach executor
     DropCaller,
+    /// wake (by value / by reference) from a destructor that runs because the thread is unwinding from a panic - the
+    /// "notify on drop" guard pattern (only outside a poll)
+    WakeUnwinding(usize),
+    WakeByRefUnwinding(usize),
+}
+
+/// runs its closure when dropped
+struct OnDrop<F: FnMut()>(F);
+impl<F: FnMut()> Drop for OnDrop<F> {
+    fn drop(&mut self) {
+        (self.0)()
+    }
 }
 
 #[derive(Clone, Copy, Debug, Serialize, Deserialize, PartialEq, Eq, Hash)]
@@ -177,6 +189,9 @@ struct World {
     caller_dropped: bool,
     /// polls come back Ready (an item / Ok) instead of Pending
     ready: bool,
+    /// which of the implementor's methods were entered since the harness last cleared this (one poll through the object
+    /// must reach the method of the same name once, and nothing else)
+    entered: Vec<&'static str>,
 }
 
 impl World {
@@ -210,6 +225,29 @@ impl World {
                 drop(w);
             }
             Act::DropCaller => unreachable!("handled by the driver"),
+            Act::WakeUnwinding(i) => {
+                let (w, _) = self.wakers.remove(i);
+                let mut w = Some(w);
+                let r = std::panic::catch_unwind(std::panic::AssertUnwindSafe(move || {
+                    let _g = OnDrop(move || {
+                        if let Some(w) = w.take() {
+                            w.wake()
+                        }
+                    });
+                    panic!("unwinding on purpose");
+                }));
+                assert!(r.is_err());
+                self.wake_ops += 1;
+            }
+            Act::WakeByRefUnwinding(i) => {
+                let w: &Waker = &self.wakers[i].0;
+                let r = std::panic::catch_unwind(std::panic::AssertUnwindSafe(|| {
+                    let _g = OnDrop(|| w.wake_by_ref());
+                    panic!("unwinding on purpose");
+                }));
+                assert!(r.is_err());
+                self.wake_ops += 1;
+            }
         }
     }
 }
@@ -220,8 +258,9 @@ struct Scripted(Arc<Mutex<World>>);
 
 impl Scripted {
     /// -> whether this poll is to come back Ready (streams and sinks only: for them Ready is not the end)
-    fn run(&mut self, cx: &mut Context<'_>) -> bool {
+    fn run(&mut self, cx: &mut Context<'_>, method: &'static str) -> bool {
         let mut w = self.0.lock().unwrap();
+        w.entered.push(method);
         let acts = std::mem::take(&mut w.pending);
         for a in acts {
             w.apply(a, Some(cx.waker()));
@@ -233,7 +272,7 @@ impl Scripted {
 impl Future for Scripted {
     type Output = u32;
     fn poll(mut self: Pin<&mut Self>, cx: &mut Context<'_>) -> Poll<u32> {
-        self.run(cx);
+        self.run(cx, "poll");
         Poll::Pending
     }
 }
@@ -241,7 +280,7 @@ impl Future for Scripted {
 impl futures::Stream for Scripted {
     type Item = u32;
     fn poll_next(mut self: Pin<&mut Self>, cx: &mut Context<'_>) -> Poll<Option<u32>> {
-        if self.run(cx) {
+        if self.run(cx, "poll_next") {
             Poll::Ready(Some(7))
         } else {
             Poll::Pending
@@ -252,21 +291,22 @@ impl futures::Stream for Scripted {
 impl futures::Sink<u32> for Scripted {
     type Error = u32;
     fn poll_ready(mut self: Pin<&mut Self>, cx: &mut Context<'_>) -> Poll<Result<(), u32>> {
-        self.run(cx);
+        self.run(cx, "poll_ready");
         Poll::Pending
     }
     fn start_send(self: Pin<&mut Self>, _item: u32) -> Result<(), u32> {
+        self.0.lock().unwrap().entered.push("start_send");
         Ok(())
     }
     fn poll_flush(mut self: Pin<&mut Self>, cx: &mut Context<'_>) -> Poll<Result<(), u32>> {
-        if self.run(cx) {
+        if self.run(cx, "poll_flush") {
             Poll::Ready(Ok(()))
         } else {
             Poll::Pending
         }
     }
     fn poll_close(mut self: Pin<&mut Self>, cx: &mut Context<'_>) -> Poll<Result<(), u32>> {
-        self.run(cx);
+        self.run(cx, "poll_close");
         Poll::Pending
     }
 }
@@ -370,6 +410,10 @@ impl Sut {
         for a in &common {
             v.push(Op::Out(*a));
         }
+        for i in 0..n {
+            v.push(Op::Out(Act::WakeUnwinding(i)));
+            v.push(Op::Out(Act::WakeByRefUnwinding(i)));
+        }
         if !caller_dropped && n > 0 && self.kind != Kind::ForeignFuture {
             v.push(Op::Out(Act::DropCaller));
         }
@@ -408,18 +452,23 @@ impl Sut {
             }
         }
         macro_rules! drive {
-            ($obj:expr, $poll:expr) => {{
+            ($obj:expr, $want:expr, $poll:expr) => {{
                 let mut obj = $obj;
                 for (step, g) in groups.iter() {
                     let at = |what: &str| format!("step {} {:?}: {}", step, hist[*step], what);
                     match g {
                         Grp::Poll(acts) => {
                             world.lock().unwrap().pending = acts.clone();
+                            world.lock().unwrap().entered.clear();
                             let mut cx = Context::from_waker(waker.as_ref().expect("no poll after the caller dropped its waker"));
                             let pinned = Pin::new(&mut obj);
                             let pending = $poll(pinned, &mut cx);
                             if !pending {
                                 return Err(("waker:poll_result".into(), at("the scripted poll result (Pending, or Ready with its value) did not come back unchanged")));
+                            }
+                            let entered = world.lock().unwrap().entered.clone();
+                            if entered != [$want] {
+                                return Err(("poll:dispatch".into(), at(&format!("one {} through the opaque object entered the implementor's methods {:?} (expected exactly one {})", $want, entered, $want))));
                             }
                         }
                         Grp::Out(Act::DropCaller) => {
@@ -463,18 +512,18 @@ impl Sut {
             }};
         }
         match self.kind {
-            Kind::Future => drive!(trait_obj!(Scripted(world.clone()) as Future), |p: Pin<&mut _>, cx: &mut Context| Future::poll(p, cx).is_pending()),
-            Kind::ForeignFuture => drive!(trait_obj!(Scripted(world.clone()) as Future), |p: Pin<&mut _>, cx: &mut Context| {
+            Kind::Future => drive!(trait_obj!(Scripted(world.clone()) as Future), "poll", |p: Pin<&mut _>, cx: &mut Context| Future::poll(p, cx).is_pending()),
+            Kind::ForeignFuture => drive!(trait_obj!(Scripted(world.clone()) as Future), "poll", |p: Pin<&mut _>, cx: &mut Context| {
                 let _ = unsafe { foreign::poll_object(Pin::into_inner(p), cx.waker()) };
                 true
             }),
-            Kind::NestedFuture => drive!(trait_obj!(Outer(trait_obj!(Scripted(world.clone()) as Future)) as Future), |p: Pin<&mut _>, cx: &mut Context| Future::poll(p, cx).is_pending()),
-            Kind::Stream => drive!(trait_obj!(Scripted(world.clone()) as Stream), |p: Pin<&mut _>, cx: &mut Context| futures::Stream::poll_next(p, cx).is_pending()),
-            Kind::SinkReady => drive!(trait_obj!(Scripted(world.clone()) as Sink), |p: Pin<&mut _>, cx: &mut Context| futures::Sink::<u32>::poll_ready(p, cx).is_pending()),
-            Kind::SinkFlush => drive!(trait_obj!(Scripted(world.clone()) as Sink), |p: Pin<&mut _>, cx: &mut Context| futures::Sink::<u32>::poll_flush(p, cx).is_pending()),
-            Kind::StreamReady => drive!(trait_obj!(Scripted(world.clone()) as Stream), |p: Pin<&mut _>, cx: &mut Context| futures::Stream::poll_next(p, cx) == Poll::Ready(Some(7))),
-            Kind::SinkFlushReady => drive!(trait_obj!(Scripted(world.clone()) as Sink), |p: Pin<&mut _>, cx: &mut Context| futures::Sink::<u32>::poll_flush(p, cx) == Poll::Ready(Ok(()))),
-            Kind::SinkClose => drive!(trait_obj!(Scripted(world.clone()) as Sink), |p: Pin<&mut _>, cx: &mut Context| futures::Sink::<u32>::poll_close(p, cx).is_pending()),
+            Kind::NestedFuture => drive!(trait_obj!(Outer(trait_obj!(Scripted(world.clone()) as Future)) as Future), "poll", |p: Pin<&mut _>, cx: &mut Context| Future::poll(p, cx).is_pending()),
+            Kind::Stream => drive!(trait_obj!(Scripted(world.clone()) as Stream), "poll_next", |p: Pin<&mut _>, cx: &mut Context| futures::Stream::poll_next(p, cx).is_pending()),
+            Kind::SinkReady => drive!(trait_obj!(Scripted(world.clone()) as Sink), "poll_ready", |p: Pin<&mut _>, cx: &mut Context| futures::Sink::<u32>::poll_ready(p, cx).is_pending()),
+            Kind::SinkFlush => drive!(trait_obj!(Scripted(world.clone()) as Sink), "poll_flush", |p: Pin<&mut _>, cx: &mut Context| futures::Sink::<u32>::poll_flush(p, cx).is_pending()),
+            Kind::StreamReady => drive!(trait_obj!(Scripted(world.clone()) as Stream), "poll_next", |p: Pin<&mut _>, cx: &mut Context| futures::Stream::poll_next(p, cx) == Poll::Ready(Some(7))),
+            Kind::SinkFlushReady => drive!(trait_obj!(Scripted(world.clone()) as Sink), "poll_flush", |p: Pin<&mut _>, cx: &mut Context| futures::Sink::<u32>::poll_flush(p, cx) == Poll::Ready(Ok(()))),
+            Kind::SinkClose => drive!(trait_obj!(Scripted(world.clone()) as Sink), "poll_close", |p: Pin<&mut _>, cx: &mut Context| futures::Sink::<u32>::poll_close(p, cx).is_pending()),
         }
         // canonical key: family sizes (sorted), caller refcount, whether an InCont may follow
         let last_in = matches!(hist.last(), Some(Op::In(_)) | Some(Op::InCont(_)));
